@@ -12,7 +12,13 @@ search : (TESTING, labelled so) the real expanders, through the in-process harne
          process) vs after much larger items of the same / of other derives, twice, and after a different item of the
          same name, (d) NAME-COLLISION histories for every derive: two items spelling the same type tokens in the same
          fields under the same name, the identifier a type parameter in one and a concrete type in the other, each
-         expanded before / after its partner and on a fresh thread; comparison of the emitted token strings.
+         expanded before / after its partner and on a fresh thread, (e) DIAGNOSTIC histories for every derive: items
+         that end in an error (legacy `fmt = ..` / `bound = ..` / `types(..)`, unknown or duplicate parameters, wrong arity,
+         unsupported shapes ...) alone in a fresh process vs after a twin that errs the same way (both orders, one
+         thread) vs late in a long-running process, (f) REAL rustc + real proc-macro server: each of ~130 items rich in
+         repeated head identifiers (Box<A>/Box<B>, Vec<..>), for all 50 derives, textually identical at byte offsets that
+         straddle 100 / 1000 / 10000 / 100000 inside the item and at offset 200000 after other items, expanded with
+         `rustc -Zunpretty=expanded`; comparison of the emitted token strings / error texts.
 control: the same keys collected into the crate's alias set and into a std RandomState set (harness cmd hash_probe):
          the first must agree everywhere, the second is expected to differ (shows the search can see a violation).
 """
@@ -274,8 +280,7 @@ def collision_pairs(rng, table, attrs, n_spellings):
     pairs = []
     k = 0
     for derive, feature in table:
-        cls = {"Error": "error", "FromStr": "from_str", "TryInto": "try_into"}.get(derive) or (
-            "mul_like" if derive in MUL_LIKE else "mul_assign_like" if derive in MUL_ASSIGN_LIKE else feature)
+        cls = class_of(derive, feature)
         sensitive = derive in TYPE_PARAM_DERIVES or derive in MUL_LIKE or derive in MUL_ASSIGN_LIKE
         for sp in rng.sample(SPELLINGS, max(n_spellings, 8) if sensitive else n_spellings):
             ident = "%s%d" % (rng.choice(IDENTS), k)
@@ -287,6 +292,208 @@ def collision_pairs(rng, table, attrs, n_spellings):
             pairs.append((cls, derive, ga[q], ca[q]))
             k += 1
     return pairs
+
+
+FMT_DERIVES = ["Display", "Binary", "Octal", "LowerHex", "UpperHex", "LowerExp", "UpperExp", "Pointer"]
+
+
+def class_of(derive, feature):
+    return {"Error": "error", "FromStr": "from_str", "TryInto": "try_into"}.get(derive) or (
+        "mul_like" if derive in MUL_LIKE else "mul_assign_like" if derive in MUL_ASSIGN_LIKE else feature)
+
+
+def diag_twins(derive, attr, k):
+    """items of `derive` that (are meant to) end in a DIAGNOSTIC, as twins (A, B): the same kind of mistake on
+    two different items -> [(kind, item A, item B)]"""
+    a = attr or derive.lower()
+    A, B = "Da%d" % k, "Db%d" % k
+    out = []
+
+    def both(kind, tmpl, xa=("Stuff", "String", "_0"), xb=("Thing", "u64", "_0")):
+        out.append((kind, tmpl.format(n=A, w=xa[0], t=xa[1], f=xa[2], a=a), tmpl.format(n=B, w=xb[0], t=xb[1], f=xb[2], a=a)))
+
+    # mistakes every derive can be offered
+    both("unknown-parameter", "#[{a}(bogus_{w})] struct {n}({t});")
+    both("unknown-name-value", "#[{a}(bogus = \"{w}\")] struct {n}({t});")
+    both("unknown-nested", "#[{a}(bogus({w}))] struct {n} {{ field: {t} }}")
+    both("duplicate-attribute", "#[{a}(forward)] #[{a}(forward)] struct {n}({t});")
+    both("duplicate-parameter", "#[{a}(ignore, ignore)] struct {n}({t}, u8);")
+    both("attribute-on-field", "struct {n}(#[{a}(bogus_{w})] {t});")
+    both("attribute-on-variant", "enum {n} {{ #[{a}(bogus_{w})] A({t}), B }}")
+    both("literal-parameter", "#[{a}(\"{w}\")] struct {n}({t});")
+    both("empty-parameter", "#[{a}()] struct {n}({t});")
+    both("unit-struct", "struct {n};")
+    both("empty-enum", "enum {n} {{}}")
+    both("two-fields", "struct {n}({t}, {t});")
+    both("three-named-fields", "struct {n} {{ a: {t}, b: {t}, c: u8 }}")
+    both("enum-shape", "enum {n} {{ A({t}), B {{ x: {t} }}, C }}")
+    both("union-shape", "union {n} {{ a: u8, b: u16 }}")
+    both("legacy-types", "#[{a}(types({t}, \"&str\"))] struct {n}(i64);")
+    both("ignore-all", "struct {n}(#[{a}(ignore)] {t});")
+    if derive in FMT_DERIVES or derive == "Debug":
+        both("legacy-fmt", "#[{a}(fmt = \"{w}({{}}): {{}}\", {f})] struct {n}({t});")
+        both("legacy-fmt-str-arg", "#[{a}(fmt = \"{w}({{}})\", \"{f}\")] struct {n}({t});")
+        both("legacy-fmt-variant", "enum {n} {{ #[{a}(fmt = \"{w} {{}}\", {f})] A({t}), B }}")
+        both("legacy-fmt-field", "struct {n} {{ #[{a}(fmt = \"{w} {{}}\", field)] field: {t} }}")
+        both("legacy-bound", "#[{a}(bound = \"T: {w}\")] struct {n}<T>(T);")
+        both("bad-literal", "#[{a}(\"{w} {{\")] struct {n}({t});")
+        both("unknown-argument", "#[{a}(\"{w} {{nope}}\")] struct {n}({t});")
+        both("too-many-positional", "#[{a}(\"{w} {{}} {{}} {{}}\", {f})] struct {n}({t});")
+        both("format-on-multi-field-without", "struct {n}({t}, {t}, {t});")
+        both("enum-level-format-mixed", "#[{a}(\"{w}\")] enum {n} {{ #[{a}(\"a\")] A, B }}")
+        both("skip-with-format", "struct {n} {{ #[{a}(skip, \"{w}\")] field: {t} }}")
+    if derive == "Error":
+        both("two-sources", "struct {n} {{ #[error(source)] a: {t}, #[error(source)] b: {t} }}")
+        both("two-backtraces", "struct {n} {{ #[error(backtrace)] a: {t}, #[error(backtrace)] b: {t} }}")
+        both("source-not-source", "struct {n} {{ #[error(source, not(source))] a: {t} }}")
+        both("nested-not", "struct {n} {{ #[error(not(not(source)))] a: {t} }}")
+    if derive in ("TryFrom",):
+        both("repr-with-fields", "#[repr(u8)] #[try_from(repr)] enum {n} {{ A({t}), B }}")
+        both("unknown-repr", "#[repr({w})] #[try_from(repr)] enum {n} {{ A, B }}")
+        both("try-from-struct", "#[try_from(repr)] struct {n}({t});")
+    if derive in ("From", "Into"):
+        both("forward-and-types", "#[{a}(forward, {t})] struct {n}({t});")
+        both("bad-type", "#[{a}(+{w})] struct {n}({t});")
+        both("legacy-types-owned", "#[{a}(owned(types({t})))] struct {n}({t});")
+    if derive in ("AsRef", "AsMut"):
+        both("forward-with-type", "#[{a}(forward, {t})] struct {n}({t});")
+        both("multi-field-no-attr", "#[{a}({t})] struct {n}({t}, {t});")
+    if derive in ("Unwrap", "TryUnwrap", "IsVariant", "TryInto"):
+        both("struct-shape", "struct {n}({t});")
+        both("ref-on-struct", "#[{a}(ref, ref_mut, owned, bogus)] enum {n} {{ A({t}) }}")
+    if derive == "FromStr":
+        both("enum-with-fields", "enum {n} {{ A({t}), B }}")
+        both("case-collision", "enum {n} {{ {w}, {w}x }}", xa=("Ab", "", ""), xb=("Cd", "", ""))
+    return out
+
+
+# ------------------------------------------------------------------ real rustc: the same item at different byte offsets
+
+def position_items(derive, attr, k):
+    """items rich in repeated head identifiers (Box<A>/Box<B>, Vec<..>, same-shaped generics) for `derive`"""
+    a = attr or derive.lower()
+    n = "Po%d" % k
+    out = []
+    if derive == "Error":
+        out += ["pub enum %s<A, B> { Read(Box<A>), Write(Box<B>) }" % n,
+                "pub enum %s<A, B, C> { R { source: Box<A> }, W { source: Box<B> }, X { source: Vec<C> }, Y { source: Vec<A> } }" % n,
+                "pub struct %s<A, B> { source: Box<A>, other: Box<B> }" % n]
+    elif derive in FMT_DERIVES:
+        out += ['#[%s("{_0:?} {_1:?}")] pub struct %s<A, B>(Box<A>, Box<B>);' % (a, n),
+                '#[%s("{a} {b}")] pub struct %s<A, B> { a: Box<A>, b: Box<B>, c: Vec<A>, d: Vec<B> }' % (a, n),
+                'pub enum %s<A, B> { #[%s("{_0}")] X(Box<A>), #[%s("{_0}")] Y(Box<B>) }' % (n, a, a)]
+    elif derive == "Debug":
+        out += ["pub struct %s<A, B> { a: Box<A>, b: Box<B>, c: Vec<A>, d: Vec<B> }" % n,
+                "pub enum %s<A, B> { X(Box<A>, Box<B>), Y { v: Vec<A>, w: Vec<B> } }" % n,
+                '#[debug("{a:?} {b:?}")] pub struct %s<A, B> { a: Box<A>, b: Box<B> }' % n]
+    elif derive in ("AsRef", "AsMut"):
+        out += ["pub struct %s<A, B> { #[%s] a: Box<A>, #[%s] b: Box<B> }" % (n, a, a),
+                "#[%s(forward)] pub struct %s<A>(Box<A>);" % (a, n),
+                "pub struct %s<A, B> { #[%s(Box<A>, Vec<A>)] a: Wr<A>, #[%s(Box<B>, Vec<B>)] b: Wr<B> }" % (n, a, a)]
+    elif derive in ("TryInto", "Unwrap", "TryUnwrap", "IsVariant"):
+        out += ["pub enum %s<A, B> { X(Box<A>), Y(Box<B>), Z(Vec<A>, Vec<B>), W(Vec<A>) }" % n,
+                "#[%s(owned, ref, ref_mut)] pub enum %s<A, B> { X(Box<A>), Y(Box<B>), Z(Box<A>, Box<B>) }" % (a, n)]
+    elif derive == "TryFrom":
+        out += ["#[try_from(repr)] #[repr(u8)] pub enum %s { Aa = 1, Ab = 2, Ba = 10, Bb }" % n]
+    elif derive == "FromStr":
+        out += ["pub enum %s { Alpha, ALPHA, Beta, BETA, Gamma, Delta, DELTA }" % n, "pub struct %s<A>(Box<A>);" % n]
+    elif derive in ("From", "Into"):
+        out += ["pub struct %s<A, B>(Box<A>, Box<B>);" % n,
+                "pub struct %s<A, B> { a: Box<A>, b: Box<B>, c: Vec<A> }" % n,
+                "#[%s(forward)] pub struct %s<A>(Box<A>);" % (a, n)]
+        if derive == "From":
+            out += ["pub enum %s<A, B> { X(Box<A>), Y(Box<B>), Z(Vec<A>, Vec<B>) }" % n]
+        else:
+            out += ["#[into(owned, ref, ref_mut)] pub struct %s<A, B>(Box<A>, Box<B>);" % n]
+    else:
+        out += ["pub struct %s<A, B> { a: Box<A>, b: Box<B>, c: Vec<A>, d: Vec<B> }" % n,
+                "pub struct %s<A, B>(Box<A>, Box<B>, Vec<A>, Vec<B>);" % n,
+                "pub struct %s<A>(Box<A>);" % n,
+                "pub enum %s<A, B> { X(Box<A>), Y(Box<B>), Z { v: Vec<A>, w: Vec<B> } }" % n]
+        if attr:
+            out += ["#[%s(forward)] pub struct %s<A>(Box<A>);" % (a, n),
+                    "pub struct %s<A, B> { #[%s] a: Box<A>, b: Box<B> }" % (n, a)]
+    return out
+
+
+def split_points(item):
+    """byte offsets inside `item` that fall between two occurrences of a repeated identifier"""
+    import re
+    occ = {}
+    for m in re.finditer(r"[A-Za-z_][A-Za-z0-9_]*", item):
+        occ.setdefault(m.group(0), []).append(m.start())
+    pts = set()
+    for name, ps in occ.items():
+        if len(ps) >= 2 and name not in ("pub", "A", "B", "C"):
+            for p, q in zip(ps, ps[1:]):
+                pts.add(p + 1 + (q - p) // 2)
+    if not pts:
+        pts = {len(item) // 3, 2 * len(item) // 3}
+    return sorted(pts)
+
+
+BOUNDARIES = [100, 1000, 10000, 100000]
+
+
+def position_file(derive_path, item, split):
+    """one source file: the item, textually identical, in modules c1.. so that byte offset 10^n falls at `split` inside
+    the copy (its leading tokens get n-digit positions, the trailing ones n+1-digit positions: their order as decimal
+    STRINGS differs from their numeric order), then a control copy far from any boundary, after another large item"""
+    text = ""
+    copies = 0
+    body = "#[derive(%s)] %s" % (derive_path, item)
+    off_in_body = len("#[derive(%s)] " % derive_path) + split
+    for b in BOUNDARIES:
+        head = "mod c%d { " % (copies + 1)
+        start = b - off_in_body - len(head)
+        if start < len(text) + 1:
+            continue
+        text += " " * (start - len(text) - 1) + "\n"
+        copies += 1
+        text += head + body + " }\nconst __M%d: () = ();\n" % copies
+    # control copy: positions 2xxxxx..., preceded by an unrelated large item
+    filler = "pub enum Filler { %s }\n" % ", ".join("V%d(Box<u8>, Vec<u16>)" % i for i in range(40))
+    text += filler
+    start = 200000
+    text += " " * (start - len(text) - 1) + "\n"
+    copies += 1
+    text += "mod c%d { %s }\nconst __M%d: () = ();\n" % (copies, body, copies)
+    return text, copies
+
+
+def split_expanded(out, copies):
+    """`-Zunpretty=expanded` output -> the text of each `mod cN { .. }`, module name normalised"""
+    import re
+    parts = []
+    rest = out
+    for i in range(1, copies + 1):
+        marker = "const __M%d: () = ();" % i
+        p = rest.find(marker)
+        if p < 0:
+            return None
+        seg = rest[:p]
+        rest = rest[p + len(marker):]
+        q = seg.rfind("mod c%d {" % i)
+        if q < 0:
+            return None
+        parts.append(re.sub(r"^mod c%d \{" % i, "mod c {", seg[q:].strip()))
+    return parts
+
+
+def rustc_env():
+    """the real derive_more (full) built once: -> (deps dir, path of libderive_more*.rlib)"""
+    d = common.make_crate("c19_pos_dep", "fn main() {}\n", features=("full",))
+    tdir = os.path.join(common.BUILD, "target-c19pos")
+    rc, out = common.cargo(d, ["build", "--quiet"], target_dir=tdir)
+    common.cleanup_scratch("c19_pos_dep")
+    if rc != 0:
+        raise common.BuildError("cannot build derive_more for the real-rustc stage:\n" + out[-2000:])
+    deps = os.path.join(tdir, "debug", "deps")
+    rlibs = sorted((os.path.getmtime(os.path.join(deps, f)), f) for f in os.listdir(deps)
+                   if f.startswith("libderive_more-") and f.endswith(".rlib"))
+    if not rlibs:
+        raise common.BuildError("no libderive_more rlib in " + deps)
+    return deps, os.path.join(deps, rlibs[-1][1])
 
 
 def derive_attr_names():
@@ -344,7 +551,7 @@ DISPLAY_SHAPES = [
 ]
 
 
-def corpus(rng, tier, derives):
+def corpus(rng, tier, derives, table=None):
     n = 40 if tier == "quick" else 400
     cases = []          # (derive, item, groups, mechanism)
     for k in range(n):
@@ -364,6 +571,15 @@ def corpus(rng, tier, derives):
         shapes = GENERIC_SHAPES + (DISPLAY_SHAPES if d in ("Display", "Debug", "Binary", "Pointer", "LowerHex") else [])
         for it in shapes:
             cases.append((d, it, 0, "other"))
+    # items that end in diagnostics (legacy syntax, unknown parameters, wrong arity, unsupported shapes, duplicates)
+    attrs = derive_attr_names()
+    feat = dict(table or [])
+    for k, d in enumerate(derives):
+        tw = diag_twins(d, attrs.get(d), k)
+        if tier == "quick":
+            tw = [t for t in tw if t[0].startswith("legacy")] + rng.sample(tw, min(6, len(tw)))
+        for kind, ia, ib in tw:
+            cases.append((d, ia, 0, class_of(d, feat.get(d, d.lower()))))
     return cases
 
 
@@ -528,7 +744,7 @@ def run(tier, seed, replay):
         r = json.load(open(replay))["replay"]
         cases = [(r["derive"], r["item"], 2, "replay")]
     else:
-        cases = corpus(rng, "thorough" if widen else tier, others)
+        cases = corpus(rng, "thorough" if widen else tier, others, table)
     reqs = [{"cmd": "expand", "derive": d, "item": it, "summary": False} for (d, it, _, _) in cases]
     probe_keys = ["k%d" % i for i in range(40)] + TYPES
     reqs_p = reqs + [{"cmd": "hash_probe", "keys": probe_keys}]
@@ -726,6 +942,144 @@ def run(tier, seed, replay):
                                    "preceding": [{"derive": d, "item": partner}],
                                    "minimal_history_reproduces": minimal},
                                   "derive(%s) on `%s` expands differently alone and after `%s`" % (d, it[:140], partner[:140]))
+    # (e) DIAGNOSTIC histories: every derive, items that end in an error (legacy syntax, unknown parameters, wrong arity,
+    #     unsupported shapes, duplicates ...): alone in a FRESH PROCESS vs after a twin that errs in the same way (one
+    #     thread, both orders) vs on a fresh thread late in a long-running process; error text compared byte-wise
+    n_diag = 0
+    if not replay:
+        attrs = derive_attr_names()
+        tw_all = []
+        for k, (d, f) in enumerate(table):
+            for kind, ia, ib in diag_twins(d, attrs.get(d), 1000 + k):
+                tw_all.append((class_of(d, f), d, kind, ia, ib))
+        if tier == "quick" and not widen:
+            legacy = [t for t in tw_all if t[2].startswith("legacy")]
+            rest = [t for t in tw_all if not t[2].startswith("legacy")]
+            tw_all = legacy + rng.sample(rest, min(len(rest), 250))
+
+        def rq2(d, it):
+            return {"derive": d, "item": it, "summary": False}
+        seq1, seq2 = [], []
+        for (cls, d, kind, ia, ib) in tw_all:
+            seq1 += [rq2(d, ia), rq2(d, ib)]
+            seq2 += [rq2(d, ib), rq2(d, ia)]
+        run1 = run_seq(binary, seq1, envs[0]["env"], envs[0]["cwd"])
+        run2 = run_seq(binary, seq2, envs[0]["env"], envs[0]["cwd"])
+        run3 = [parsed(l) for l in run_process(binary, [dict(x, cmd="expand") for x in seq2], envs[0]["env"], envs[0]["cwd"])[0]]
+        # every item alone in its own fresh process
+        from concurrent.futures import ThreadPoolExecutor as _TP
+        flat_items = [(d, it) for (cls, d, kind, ia, ib) in tw_all for it in (ia, ib)]
+        with _TP(max_workers=16) as ex:
+            alone_out = list(ex.map(lambda di: alone(di[0], di[1]), flat_items))
+        if run1 is None or run2 is None or len(run1) != len(seq1) or len(run2) != len(seq2) or len(run3) != len(seq2):
+            chk.violation("harness-crash", {"stage": "diagnostic"}, "the diagnostic history runs did not complete")
+        else:
+            for k, (cls, d, kind, ia, ib) in enumerate(tw_all):
+                views = {"first": (ia, ib, alone_out[2 * k], [run1[2 * k], run2[2 * k + 1], run3[2 * k + 1]]),
+                         "second": (ib, ia, alone_out[2 * k + 1], [run1[2 * k + 1], run2[2 * k], run3[2 * k]])}
+                for which, (it, partner, a, outs) in views.items():
+                    n_cmp += 3
+                    n_diag += 1
+                    res_kind = next(iter(a)) if isinstance(a, dict) and a else "?"
+                    chk.bump("diag:%s" % res_kind)
+                    chk.count((d, it, "diag"), res_kind in ("err", "panic"))
+                    if all(o == a for o in outs):
+                        continue
+                    after = run_seq(binary, [rq2(d, partner), rq2(d, it)], envs[0]["env"], envs[0]["cwd"])
+                    minimal = after is not None and after[1] != a
+                    bad = after[1] if minimal else next(o for o in outs if o != a)
+                    chk.violation("nondeterministic-across-histories:" + cls,
+                                  {"derive": d, "item": it, "output_a": json.dumps(a), "output_b": json.dumps(bad),
+                                   "history": "diagnostic path (%s): alone in a fresh process vs after an item that errs "
+                                              "the same way" % kind,
+                                   "preceding": [{"derive": d, "item": partner}], "minimal_history_reproduces": minimal},
+                                  "derive(%s) on `%s` reports a different diagnostic alone and after `%s`: %s vs %s" %
+                                  (d, it[:120], partner[:120], json.dumps(a)[:160], json.dumps(bad)[:160]))
+    # (f) REAL rustc, real proc-macro server: the same item, textually identical, at different byte offsets of a file
+    #     (offsets chosen so that the decimal STRING order of the token positions differs from their numeric order),
+    #     expanded by `rustc -Zunpretty=expanded`; the copies' expansions must be equal up to the module name
+    n_pos = 0
+    pos_files = 0
+    if not replay or r.get("position_file"):
+        import tempfile
+        from concurrent.futures import ThreadPoolExecutor as _TP2
+        try:
+            deps, rlib = rustc_env()
+        except common.BuildError as e:
+            deps = None
+            chk.violation("harness-crash", {"stage": "real-rustc", "error": str(e)[-800:]},
+                          "the real-rustc position stage could not be set up", no_input=True)
+        if deps:
+            attrs = derive_attr_names()
+            plan = []
+            if replay:
+                plan.append((r.get("class", "replay"), r["derive"], r["item"], r.get("split", len(r["item"]) // 2)))
+            else:
+                cand = []
+                for k, (d, f) in enumerate(table):
+                    for it in position_items(d, attrs.get(d), 2000 + k):
+                        cand.append((class_of(d, f), d, it))
+                ok = common.run_jsonl(binary, [{"cmd": "expand", "derive": d, "item": it, "summary": False} for _, d, it in cand])
+                for (cls, d, it), rs in zip(cand, ok):
+                    if "ok" not in rs:
+                        continue
+                    sp = split_points(it)
+                    if tier == "quick" and not widen and len(sp) > 3:
+                        sp = rng.sample(sp, 3)
+                    for q in sp:
+                        plan.append((cls, d, it, q))
+            wdir = tempfile.mkdtemp(prefix="c19pos-", dir=common.SCRATCH if os.path.isdir(common.SCRATCH) else None)
+            env_r = dict(os.environ, RUSTC_BOOTSTRAP="1")
+
+            def one(job):
+                idx, (cls, d, it, q) = job
+                text, copies = position_file("derive_more::" + d, it, q)
+                path = os.path.join(wdir, "p%d.rs" % idx)
+                with open(path, "w") as fh:
+                    fh.write(text)
+                try:
+                    p = subprocess.run(["rustc", "--edition=2021", "--crate-type=lib", "--crate-name", "p%d" % idx,
+                                        "-Zunpretty=expanded", "-L", "dependency=" + deps, "--extern", "derive_more=" + rlib, path],
+                                       stdout=subprocess.PIPE, stderr=subprocess.PIPE, text=True, errors="replace",
+                                       env=env_r, timeout=120)
+                    out, err = p.stdout, p.stderr
+                except subprocess.TimeoutExpired:
+                    out, err = "", "timeout"
+                os.remove(path)
+                return split_expanded(out, copies), copies, err[-400:], text
+            with _TP2(max_workers=16) as ex:
+                results_p = list(ex.map(one, list(enumerate(plan))))
+            shutil.rmtree(wdir, ignore_errors=True)
+            n_bad = 0
+            for (cls, d, it, q), (parts, copies, err, text) in zip(plan, results_p):
+                pos_files += 1
+                if parts is None:
+                    n_bad += 1
+                    if n_bad <= 2:
+                        chk.notes.append("real-rustc stage: no expansion for derive(%s) on `%s`: %s" % (d, it[:100], err[-200:]))
+                    continue
+                chk.bump("position:" + cls)
+                n_pos += copies
+                n_cmp += copies - 1
+                chk.count((d, it, q, "position"), True)
+                # the pretty-printer derives blank lines / line breaks from source positions: compare the token text only
+                squeezed = ["".join(x.split()) for x in parts]
+                diff = [i for i in range(1, len(parts)) if squeezed[i] != squeezed[0]]
+                if diff:
+                    i = diff[0]
+                    chk.violation("nondeterministic-across-positions:" + cls,
+                                  {"derive": d, "item": it, "split": q, "position_file": True,
+                                   "output_a": parts[0], "output_b": parts[i],
+                                   "copies_differing_from_the_first": [j + 1 for j in diff],
+                                   "how": "RUSTC_BOOTSTRAP=1 rustc --edition=2021 --crate-type=lib -Zunpretty=expanded --extern "
+                                          "derive_more=<rlib of /repo, features full> file.rs; file.rs holds the item in modules "
+                                          "c1..c%d placed so that byte offsets 100 / 1000 / 10000 / 100000 fall %d bytes into the item, "
+                                          "and once at offset 200000" % (copies, q)},
+                                  "derive(%s) on `%s` expands differently depending on the byte offset of the item in its file "
+                                  "(real rustc): copy 1 vs copy %d" % (d, it[:160], i + 1))
+            if plan and n_bad > len(plan) // 2:
+                chk.violation("harness-crash", {"stage": "real-rustc", "failed": n_bad, "of": len(plan)},
+                              "the real-rustc position stage produced no expansion for most items", no_input=True)
     chk.cov["traces_validated_against_impl"] = n_cmp
     for j, (d, it, g, mech) in enumerate(cases):
         if mech != "other" and g >= 4 and kinds.get(j) == "ok":
@@ -743,7 +1097,7 @@ def run(tier, seed, replay):
     extra = {"search_is_testing": True,
              "aslr_randomize_va_space": aslr,
              "environments": [e["desc"] for e in envs],
-             "orders": list(orders), "size_history_comparisons": n_hist, "name_collision_comparisons": n_coll,
+             "orders": list(orders), "size_history_comparisons": n_hist, "name_collision_comparisons": n_coll, "diagnostic_history_items": n_diag, "real_rustc_position_files": pos_files, "real_rustc_copies_compared": n_pos,
              "histories": sorted(set(h[0].split(": ", 1)[-1] for h in hist_plan)),
              "controls": {"alias_orders_seen": len(alias_orders), "random_state_orders_seen": len(random_orders),
                           "translator_mutations": [{"mutation": n, "facts_ok": v} for n, v in controls]}}
